@@ -21,14 +21,19 @@ func (c *Client) Release() {
 		return
 	}
 
-	client := c.client()
+	// Handle is not usable after release: resource can be acquired by
+	// another holder, so second Release should not touch it.
+	res := c.res
+	c.res = nil
 
-	if client.IsClosed() || time.Since(c.res.CreationTime()) > c.p.options.MaxConnLifetime {
-		c.res.Destroy()
+	client := res.Value().client
+
+	if client.IsClosed() || time.Since(res.CreationTime()) > c.p.options.MaxConnLifetime {
+		res.Destroy()
 		return
 	}
 
-	c.res.Release()
+	res.Release()
 }
 
 func (c *Client) Do(ctx context.Context, q ch.Query) (err error) {
